@@ -1,8 +1,111 @@
 import AFV.Driver.Proto
+import AFV.Spec.Front
+/-!
+Driver ops for C13 / C14 (join = exhaustive combination; accelerations never change the result).
+
+The harness enumerates every combination of one pmapping row per Einsum, joins each combination *alone* with the real code
+(singleton join: no pruning decision) and sends the resulting vectors (requested objectives, plus final reservation columns when
+RESOURCE_USAGE is requested) as exact scaled integers. This file is the judge:
+
+  {"op":"front","rows":[[ints],…]}
+        → canonical Pareto front (all-pairs definition): rows not strictly dominated, sorted lexicographically, no duplicates
+  {"op":"check","all":[[ints],…],"got":[[ints],…],"ppm":p}
+        → {"front":[…], "missing":[i,…], "unachievable":[j,…], "dominated":[[j,k],…]}
+          front        = exact front of `all`
+          missing      = indices i into front such that no returned row is ≤ front[i] within tolerance in every coordinate
+          unachievable = indices j into got whose row is not within tolerance of any row of `all`
+          dominated    = pairs (j,k): every combination whose value got[j] carries (within tolerance) is dominated exactly
+                         (≤ everywhere) by a combination that is smaller by more than the tolerance somewhere; all[k] is
+                         such a dominating row for the first match
+        `ppm` is the relative tolerance in parts per million (float32 accumulation order in the joiner), one scaled unit absolute.
+
+Vectors of different lengths are malformed input (the harness aligns columns before sending).
+-/
 namespace AFV.Driver.C13
 open Lean AFV.Proto
 
-/-- Handler for property C13 requests (stub: not implemented yet). -/
-def handle (_req : Json) : Json := err "unimplemented"
+/-! `front` is `AFV.Front.frontFast` (proved equal to the all-pairs definition `AFV.Front.front` in `Lemmas/Front.lean`);
+`leqAll` is the coordinatewise order of the same file. -/
+abbrev Vec := AFV.Front.Vec
+abbrev leqAll : Vec → Vec → Bool := AFV.Front.leqAll
+abbrev front (rows : List Vec) : List Vec := AFV.Front.frontFast rows
+
+/-- slack allowed between two coordinates: ppm · max(|a|,|b|) / 10^6 + 1, kept as a numerator over 10^6 -/
+def slackNum (ppm : Nat) (a b : Int) : Int := (ppm : Int) * (max a.natAbs b.natAbs : Nat) + 1000000
+
+/-- `a ≤ b` up to the tolerance -/
+def leTol (ppm : Nat) (a b : Int) : Bool := decide ((a - b) * 1000000 ≤ slackNum ppm a b)
+
+/-- `a < b` by more than the tolerance -/
+def ltClear (ppm : Nat) (a b : Int) : Bool := decide ((b - a) * 1000000 > slackNum ppm a b)
+
+def leqTolAll (ppm : Nat) : Vec → Vec → Bool
+  | [], [] => true
+  | a :: as, b :: bs => leTol ppm a b && leqTolAll ppm as bs
+  | _, _ => false
+
+def anyClear (ppm : Nat) : Vec → Vec → Bool
+  | a :: as, b :: bs => ltClear ppm a b || anyClear ppm as bs
+  | _, _ => false
+
+def nearAll (ppm : Nat) (a b : Vec) : Bool := leqTolAll ppm a b && leqTolAll ppm b a
+
+def indicesWhere {α : Type} (p : α → Bool) (l : List α) : List Nat :=
+  (l.zipIdx.filter (fun x => p x.1)).map (·.2)
+
+def missing (ppm : Nat) (fr got : List Vec) : List Nat :=
+  indicesWhere (fun v => !(got.any (fun g => leqTolAll ppm g v))) fr
+
+def unachievable (ppm : Nat) (all got : List Vec) : List Nat :=
+  indicesWhere (fun g => !(all.any (fun u => nearAll ppm u g))) got
+
+/-- Exact domination by a row that is better beyond the tolerance somewhere: `u ≤ g` in every coordinate (exactly, on the
+oracle's values) and smaller by more than the tolerance in at least one. -/
+def domClear (ppm : Nat) (u g : Vec) : Bool := leqAll u g && anyClear ppm u g
+
+/-- A returned row is reported as dominated when EVERY combination whose value it carries (within tolerance) is dominated,
+exactly, by a combination that is better beyond the tolerance in some coordinate.  Deciding on the oracle's exact values keeps a
+row that is better by a hair (less than the tolerance, but really better) from being reported. -/
+def dominated (ppm : Nat) (all got : List Vec) : List (Nat × Nat) :=
+  got.zipIdx.filterMap (fun x =>
+    let near := all.filter (fun u => nearAll ppm u x.1)
+    match near with
+    | [] => none
+    | g0 :: _ =>
+      if near.all (fun gs => all.any (fun u => domClear ppm u gs)) then
+        match all.findIdx? (fun u => domClear ppm u g0) with
+        | some k => some (x.2, k)
+        | none => none
+      else none)
+
+private def rows? (j : Json) : Option (List Vec) := do
+  let a ← getArr? j
+  a.toList.mapM intList?
+
+private def sameLen (rows : List Vec) : Bool :=
+  match rows with
+  | [] => true
+  | r :: rs => rs.all (fun s => s.length == r.length)
+
+private def ofRows (rows : List Vec) : Json := Json.arr (rows.map ofIntList).toArray
+
+def handle (req : Json) : Json :=
+  match (field? req "op").bind getStr? with
+  | some "front" =>
+    match (field? req "rows").bind rows? with
+    | some rows => if sameLen rows then ofRows (front rows) else err "malformed"
+    | none => err "malformed"
+  | some "check" =>
+    match (field? req "all").bind rows?, (field? req "got").bind rows?, (field? req "ppm").bind getNat? with
+    | some all, some got, some ppm =>
+      if !sameLen (all ++ got) then err "malformed" else
+      let fr := front all
+      Json.mkObj [
+        ("front", ofRows fr),
+        ("missing", ofNatList (missing ppm fr got)),
+        ("unachievable", ofNatList (unachievable ppm all got)),
+        ("dominated", Json.arr ((dominated ppm all got).map (fun p => ofNatList [p.1, p.2])).toArray)]
+    | _, _, _ => err "malformed"
+  | _ => err "bad-op"
 
 end AFV.Driver.C13
